@@ -5,7 +5,11 @@
    zlb_recv = true is the rule before that fix, kept only for the historical refuted witness.
    All six C16 findings are fixed in /repo (96f9f16 3558639 63cd1b1 e6d010e e462f04 1a77bf9).
    Events carry the send-callback faults of the operation: [fj] (which write of a driveSend fails) and
-   [drops] (which writes of a Tick fail); theorems quantify over all of them unless stated. *)
+   [drops] (which writes of a Tick fail); theorems quantify over all of them unless stated.
+   Events also carry the implementation's FREE CHOICES [rc : rchoice]: whether an Nr ahead of our own Ns is
+   ignored (r_ig) and which deadline <= now + zlbDelay the delayed acknowledgement gets (r_zd); the runner's idle
+   poll period is the parameter [poll > 0].  Every theorem below holds for every such choice; /repo HEAD is
+   head_choice / poll = 500. *)
 From OV Require Import Common.Base C16.Model C16.Proofs.
 Open Scope Z_scope.
 
@@ -133,10 +137,12 @@ Proof. exact tick_sends_owed_ack. Qed.
 Print Assumptions C16_tick_sends_owed_ack.
 
 (* every real (non-ZLB) message that reaches the channel — accepted, duplicate or out of window —
-   arms the ZLB timer zlbDelay from now, under both dispatch rules *)
+   arms the ZLB timer for some deadline not later than now + zlbDelay (the exact deadline is the implementation's
+   choice), under both dispatch rules *)
 Theorem C16_data_arms_ack :
-  forall z f c p b now fj c' o e h,
-  k_body p = Some b -> dispatch z f c p now fj = (c', o, e, h) -> c_zlb c' = Some (now + f_zlb f).
+  forall z f c p b now fj rc c' o e h,
+  k_body p = Some b -> dispatch z f c p now fj rc = (c', o, e, h) ->
+  exists d, c_zlb c' = Some d /\ d <= now + f_zlb f.
 Proof. exact data_arms_ack. Qed.
 Print Assumptions C16_data_arms_ack.
 
@@ -269,10 +275,10 @@ Print Assumptions C16_quiescent_all_delivered.
    Proofs.run_inv) with S not dead: if ANY ONE transmission of the message at the head of S's queue reaches R,
    that message has been handed to R's machine (now or before). *)
 Theorem C16_head_delivery_progress :
-  forall o S R p r pk b now fj R' ob,
+  forall o S R p r pk b now fj rc R' ob,
   dir_inv o S R -> Z.of_nat (length (e_sub S)) < 32768 -> e_dead S = 0%nat ->
   c_q (e_ch S) = p :: r -> k_body pk = Some b -> k_ns pk = p_ns p ->
-  ep_deliver false R pk now fj = (R', ob) ->
+  ep_deliver false R pk now fj rc = (R', ob) ->
   (length (e_sub S) - length (c_q (e_ch S)) < length (e_del R'))%nat.
 Proof. exact head_delivery_progress. Qed.
 Print Assumptions C16_head_delivery_progress.
@@ -283,12 +289,12 @@ Print Assumptions C16_head_delivery_progress.
    dichotomy under the explicit fair-loss assumption "of the <= MaxRetries transmissions of the head and the
    acknowledgements they trigger, one of each gets through, or none does": delivered and dequeued, or dead. *)
 Theorem C16_head_ack_progress :
-  forall o S R p r pk now fj S' ob,
+  forall o S R p r pk now fj rc S' ob,
   dir_inv o S R -> Z.of_nat (length (e_sub S)) < 32768 ->
   c_q (e_ch S) = p :: r -> 0 < p_att p ->
   (length (e_sub S) - length (c_q (e_ch S)) < length (e_del R))%nat ->
   k_nr pk = c_nr (e_ch R) ->
-  ep_deliver false S pk now fj = (S', ob) ->
+  ep_deliver false S pk now fj rc = (S', ob) ->
   (length (c_q (e_ch S')) < length (c_q (e_ch S)))%nat.
 Proof. exact head_ack_progress. Qed.
 Print Assumptions C16_head_ack_progress.
@@ -311,14 +317,14 @@ Proof. exact no_stranded_message. Qed.
 Print Assumptions C16_no_stranded_message.
 
 (* THE RUNNER'S TIMER (runner.go loop, runner_next) NEVER PARKS: after every Tick another one is scheduled,
-   500 ms later when the channel reported nothing pending (so a ZLB deadline armed by a Recv in between —
-   which transmits nothing — is found within 500 ms), otherwise at the reported time but not sooner than 50 ms. *)
+   one idle poll period later (any poll > 0; /repo HEAD: 500 ms) when the channel reported nothing pending (so a ZLB
+   deadline armed by a Recv in between — which transmits nothing — is found within one period), otherwise at the reported time but not sooner than 50 ms. *)
 Theorem C16_runner_never_parks :
-  forall ret now,
-  now < runner_next ret now /\
+  forall poll ret now, 0 < poll ->
+  now < runner_next poll ret now /\
   match ret with
-  | None => runner_next ret now = now + 500
-  | Some t => runner_next ret now = Z.max t (now + 50)
+  | None => runner_next poll ret now = now + poll
+  | Some t => runner_next poll ret now = Z.max t (now + 50)
   end.
 Proof. exact runner_next_bounds. Qed.
 Print Assumptions C16_runner_never_parks.
@@ -327,9 +333,9 @@ Print Assumptions C16_runner_never_parks.
    <= d, and the next Tick is at t2 with t1 + 50 <= t2 <= max d (t1 + 50).  Iterating, some Tick happens in
    [d, d + 50] and sends the acknowledgement (C16_tick_sends_owed_ack). *)
 Theorem C16_runner_reaches_zlb :
-  forall f c t1 d c' o ret,
-  c_zlb c = Some d -> t1 < d -> tick f c t1 = (c', o, false, ret) ->
-  let t2 := runner_next ret t1 in
+  forall poll f c t1 d c' o ret,
+  0 < poll -> c_zlb c = Some d -> t1 < d -> tick f c t1 = (c', o, false, ret) ->
+  let t2 := runner_next poll ret t1 in
   t1 + 50 <= t2 <= Z.max d (t1 + 50) /\ c_zlb c' = Some d.
 Proof. exact runner_reaches_zlb. Qed.
 Print Assumptions C16_runner_reaches_zlb.
@@ -345,11 +351,11 @@ Print Assumptions C16_runner_reaches_zlb.
    floor).  Together with C16_no_stranded_message (a non-empty queue always has such a head, for every write-fault
    pattern) and C16_head_delivery/ack_progress + C16_reachable_inv: delivered and dequeued, or dead by td. *)
 Theorem C16_dead_under_runner :
-  forall f g, (forall k, keeps_head (g k)) ->
+  forall poll f g, 0 < poll -> (forall k, keeps_head (g k)) ->
   forall fuel c t p r,
   c_q c = p :: r -> 1 <= p_att p <= f_maxr f ->
   Z.max t (p_dl p + 50) + (f_maxr f - p_att p) * rstep f - t < Z.of_nat fuel * 50 ->
-  exists td, runner_dead f g c t fuel = Some td /\
+  exists td, runner_dead poll f g c t fuel = Some td /\
              t <= td <= Z.max t (p_dl p + 50) + (f_maxr f - p_att p) * rstep f.
 Proof. exact dead_under_runner. Qed.
 Print Assumptions C16_dead_under_runner.
@@ -357,16 +363,16 @@ Print Assumptions C16_dead_under_runner.
 (* admissible interference: a submission with any write fault; an inbound message whose Nr does not acknowledge the head *)
 Theorem C16_runner_interference :
   (forall f body sid now fj, keeps_head (fun c => fst (fst (send_session f c body sid now fj)))) /\
-  (forall f ns nr now fj c p r, c_q c = p :: r -> 1 <= p_att p -> seq_less (p_ns p) nr = false ->
-     exists r', c_q (fst (fst (fst (recv f c ns nr now fj)))) = p :: r').
+  (forall f ns nr now fj rc c p r, c_q c = p :: r -> 1 <= p_att p -> seq_less (p_ns p) nr = false ->
+     exists r', c_q (fst (fst (fst (recv f c ns nr now fj rc)))) = p :: r').
 Proof. split; [exact submit_keeps_head|exact recv_keeps_head]. Qed.
 Print Assumptions C16_runner_interference.
 
 (* non-vacuity: RTO 100/400, MaxRetries 3, one message sent at 0: the runner's own Ticks are at 100, 300, 700
    (not rtoMax apart) and the third declares dead, with or without a submission between every two Ticks *)
 Example C16_dead_under_runner_nonvacuous :
-  runner_dead ex_conf (fun _ c => c) ex_chan 100 30 = Some 700 /\
-  runner_dead ex_conf (fun k c => fst (fst (send_session ex_conf c (Z.of_nat k) 0 0 None))) ex_chan 100 30 = Some 700.
+  runner_dead 500 ex_conf (fun _ c => c) ex_chan 100 30 = Some 700 /\
+  runner_dead 500 ex_conf (fun k c => fst (fst (send_session ex_conf c (Z.of_nat k) 0 0 None))) ex_chan 100 30 = Some 700.
 Proof. exact runner_dead_example. Qed.
 Print Assumptions C16_dead_under_runner_nonvacuous.
 
@@ -393,9 +399,9 @@ Print Assumptions C16_accounting_nonvacuous.
 (* non-vacuity of C16_runner_reaches_zlb: ZLB armed for 250, Tick at 200 sends nothing and reports 250, the runner
    comes back at 250 and that Tick sends the acknowledgement *)
 Example C16_runner_zlb_nonvacuous :
-  let c := fst (fst (fst (recv ex_conf (new_chan 1) 0 0 200 None))) in
+  let c := fst (fst (fst (recv ex_conf (new_chan 1) 0 0 200 None head_choice))) in
   c_zlb c = Some 250 /\
-  (let '(c', o, d, ret) := tick ex_conf c 200 in o = [] /\ d = false /\ ret = Some 250 /\ runner_next ret 200 = 250) /\
+  (let '(c', o, d, ret) := tick ex_conf c 200 in o = [] /\ d = false /\ ret = Some 250 /\ runner_next 500 ret 200 = 250) /\
   (let '(c', o, d, ret) := tick ex_conf c 250 in map k_nr o = [1] /\ c_zlb c' = None).
 Proof. exact runner_zlb_example. Qed.
 Print Assumptions C16_runner_zlb_nonvacuous.
@@ -412,3 +418,22 @@ Print Assumptions C16_sccrq_once.
 Theorem C16_sccrq_once_refuted_pre_1a77bf9 : conn_opens false CNone [CSccrq; COther; CTeardown; CSccrq] = 2%nat.
 Proof. exact sccrq_twice_without_linger. Qed.
 Print Assumptions C16_sccrq_once_refuted_pre_1a77bf9.
+
+(* THE FREE CHOICES.  (1) Between honest endpoints (any reachable state of an honest run, < 2^15 submissions) the Nr of
+   every packet the peer ever wrote is not ahead of our own next Ns: ignoring "acknowledgements from the future"
+   (r_ig) changes nothing on honest runs — it only concerns forged packets, about which the property says nothing.
+   (2) Both delayed-acknowledgement policies — re-arm at now + zlbDelay (/repo HEAD), keep an earlier pending
+   deadline — are instances of r_zd; every theorem above holds for all of them. *)
+Theorem C16_honest_ack_never_ahead :
+  forall o S R pk,
+  dir_inv o S R -> Z.of_nat (length (e_sub S)) < 32768 -> In pk (e_sent R) ->
+  seq_less (c_ns (e_ch S)) (k_nr pk) = false.
+Proof. exact honest_ack_never_ahead. Qed.
+Print Assumptions C16_honest_ack_never_ahead.
+
+Example C16_zlb_policies_admissible :
+  forall f now prev,
+  zlb_choice f now None = now + f_zlb f /\
+  zlb_choice f now (Some (Z.min prev (now + f_zlb f))) = Z.min prev (now + f_zlb f).
+Proof. exact zlb_policies_admissible. Qed.
+Print Assumptions C16_zlb_policies_admissible.
